@@ -343,7 +343,9 @@ def nested_G(o, thorough):
                 continue
             if (f["exact"] and got != f["exp"]) or leak(got) or (f["must"] and f["q"] not in got):
                 suspects.append({"fs": f["fs"], "o": f["o"], "c": f["c"], "src": f["src"], "got": got, "what": what})
-        inside = [c for c in ob["calls"] if c[1] == "x" or c[0] != "T1"]
+        # the only call a payload holds is {{T1|x}}; the frames call T1 with the stored nowiki or "s" in the
+        # argument (with mis-paired brackets other names may be read as calls: that is about the frames)
+        inside = [c for c in ob["calls"] if c[0] == "T1" and c[1] == "x"]
         if inside:
             o.violation({**case, "template_fn_calls": ob["calls"]}, f"template call(s) {inside!r} were made while expanding {f['src']!r}: something inside <nowiki> was expanded", cls="nested-expanded-inside")
         if ob.get("tleak"):
@@ -486,7 +488,7 @@ def run(tier: str) -> int:
         o.shape(("nestV", "/".join(c["fs"]), json.dumps(c["o"], sort_keys=True)))
         if "exc" in ob:
             o.violation({"input": c["src"], "options": c["o"], "exception": ob["exc"]}, f"exception {ob['exc']} from {c['src']!r}", cls="V-nested-exception")
-        elif [x for x in ob["calls"] if x[0] != "T1" or x[1] in ("x", None)]:
+        elif [x for x in ob["calls"] if x[0] == "T1" and x[1] == "x"]:
             o.violation({"input": c["src"], "options": c["o"], "template_fn_calls": ob["calls"]}, "something inside <nowiki> was expanded", cls="V-nested-expanded-inside")
     for ob in obs:
         if ob.get("calls") not in ([], ["T1"]):
